@@ -705,6 +705,108 @@ func c14FirstCalls(ctx *Ctx, i int, rounds int) {
 	ctx.Emit(Case{I: i, Kind: "first-calls", Desc: map[string]interface{}{"rounds": rounds}, Monitor: mon})
 }
 
+// c14CancelRace: a caller gives up at the very moment its reply arrives, then the next call is made
+// on the same connection. Whichever way the race goes for the first call (its reply, or its
+// context's error), the next call gets the reply that carries ITS request id and nothing else.
+func c14CancelRace(ctx *Ctx, i int, rounds int) {
+	var mon []string
+	codec := newManualCodec()
+	rem := &jsonrpc2.Remote{Codec: codec, Server: &jsonrpc2.Server{}}
+	go rem.Serve()
+	defer codec.Close()
+	lastID := func(n int) json.RawMessage {
+		for t := 0; t < 8000 && codec.written() < n; t++ {
+			time.Sleep(25 * time.Microsecond)
+		}
+		codec.mu.Lock()
+		defer codec.mu.Unlock()
+		if len(codec.out) < n {
+			return nil
+		}
+		return codec.out[n-1].ID
+	}
+	reply := func(id json.RawMessage, p int) {
+		raw, _ := json.Marshal(p)
+		codec.in <- &jsonrpc2.Message{Response: &jsonrpc2.Response{Result: raw}, ID: id, Version: "2.0"}
+	}
+	sent := 0
+	outcomes := map[string]int{}
+	for r := 0; r < rounds && len(mon) == 0; r++ {
+		cctx, cancel := context.WithCancel(context.Background())
+		type res struct {
+			out int
+			err error
+		}
+		ra := make(chan res, 1)
+		go func() {
+			var out int
+			err := rem.Call(cctx, &out, "probe", r)
+			ra <- res{out, err}
+		}()
+		sent++
+		idA := lastID(sent)
+		if idA == nil {
+			mon = append(mon, fmt.Sprintf("c14-cancel-race: round %d: the request never went out", r))
+			cancel()
+			break
+		}
+		pa, pb := 2*r+1000001, 2*r+1000002
+		// the reply and the cancellation, as close together as two goroutines get
+		var wg sync.WaitGroup
+		wg.Add(2)
+		go func() { defer wg.Done(); reply(idA, pa) }()
+		go func() {
+			defer wg.Done()
+			if r%3 == 1 {
+				time.Sleep(time.Duration(r%40) * time.Microsecond)
+			}
+			cancel()
+		}()
+		wg.Wait()
+		a := <-ra
+		switch {
+		case a.err == nil && a.out == pa:
+			outcomes["first call got its reply"]++
+		case a.err == context.Canceled:
+			outcomes["first call got its context's error"]++
+		default:
+			mon = append(mon, fmt.Sprintf("c14-cancel-race: round %d: the cancelled call returned (%d, %v); its reply was %d", r, a.out, a.err, pa))
+		}
+		if r%2 == 1 {
+			codec.drained()
+		}
+		rb := make(chan res, 1)
+		go func() {
+			var out int
+			err := rem.Call(context.Background(), &out, "probe", r)
+			rb <- res{out, err}
+		}()
+		sent++
+		idB := lastID(sent)
+		if idB == nil || string(idB) == string(idA) {
+			mon = append(mon, fmt.Sprintf("c14-cancel-race: round %d: the next request went out with id %s (the cancelled call had %s)", r, idB, idA))
+			break
+		}
+		select {
+		case b := <-rb:
+			// answered before its reply was even sent
+			mon = append(mon, fmt.Sprintf("c14-cancel-race: round %d: call %s returned (%d, %v) before any reply with its id was sent; the call before it (id %s, reply %d) had been cancelled as its reply arrived", r, idB, b.out, b.err, idA, pa))
+			continue
+		case <-time.After(300 * time.Microsecond):
+		}
+		reply(idB, pb)
+		select {
+		case b := <-rb:
+			if b.err != nil || b.out != pb {
+				mon = append(mon, fmt.Sprintf("c14-cancel-race: round %d: call %s returned (%d, %v); the reply carrying its id was %d", r, idB, b.out, b.err, pb))
+			}
+		case <-time.After(3 * time.Second):
+			mon = append(mon, fmt.Sprintf("c14-cancel-race: round %d: call %s never returned although its reply %d was delivered", r, idB, pb))
+		}
+	}
+	ctx.Emit(Case{I: i, Kind: "cancel-race", Desc: map[string]interface{}{"rounds": rounds, "outcomes": outcomes}, Monitor: mon})
+}
+
 // ---------- request ids when building a request fails ----------
 
 // slowBadParam blocks inside its JSON encoding until released, then fails.
@@ -901,6 +1003,9 @@ func runC14(ctx *Ctx) {
 	}
 	if ctx.Want(n + 1001) {
 		c14CtxService(ctx, n+1001)
+	}
+	if ctx.Want(n + 1002) {
+		c14CancelRace(ctx, n+1002, ctx.N(1500, 20000))
 	}
 	for c := 0; c < ctx.N(4, 40); c++ {
 		if ctx.Want(n + 1010 + c) {
